@@ -483,6 +483,195 @@ func runC18(c *engine.Ctx) {
 			c.Floor(1, 1)
 		}
 	}
+
+	checkFlagTargets(c, "R9")
+	checkStrictPlumbing(c, "R10")
+}
+
+// checkFlagTargets (R9): "the same configuration given through command-line flags yields identical structures". Every
+// flag registered in pkg/config writes through a pointer; that pointer must point into the configuration object the
+// function was given, or into a local variable whose *address* is installed in the configuration (so that flags parsed
+// later are still seen). A local whose address never reaches the configuration receives flag values nobody reads.
+func checkFlagTargets(c *engine.Ctx, rule string) {
+	c.Rule(rule, "pkg/config flag registration: every flag target pointer is rooted in the configuration parameter, or in a local variable whose address is stored into the configuration (never a copy)")
+	p := c.P
+	n := 0
+	paramRooted := func(v ssa.Value) bool {
+		root, _ := engine.FieldPath(v)
+		src := engine.Provenance(root, engine.ProvOpts{})
+		return len(src.Params) > 0
+	}
+	// addressInstalled: the address of al is the value of some store (in f or, through a captured variable, in a closure of f)
+	addressInstalled := func(al *ssa.Alloc) bool {
+		refs := al.Referrers()
+		if refs == nil {
+			return false
+		}
+		for _, r := range *refs {
+			switch x := r.(type) {
+			case *ssa.Store:
+				if x.Val == ssa.Value(al) && paramRooted(x.Addr) {
+					return true
+				}
+			case *ssa.MakeClosure:
+				cf, _ := x.Fn.(*ssa.Function)
+				for i, b := range x.Bindings {
+					if b != ssa.Value(al) || cf == nil || i >= len(cf.FreeVars) {
+						continue
+					}
+					if fr := cf.FreeVars[i].Referrers(); fr != nil {
+						for _, y := range *fr {
+							if st, ok := y.(*ssa.Store); ok && st.Val == ssa.Value(cf.FreeVars[i]) {
+								return true
+							}
+						}
+					}
+				}
+			}
+		}
+		return false
+	}
+	for _, f := range p.RepoFuncs() {
+		if f.Pkg == nil || !strings.HasSuffix(f.Pkg.Pkg.Path(), "/pkg/config") {
+			continue
+		}
+		engine.ForEachInstr(f, func(in ssa.Instruction) {
+			call, ok := in.(ssa.CallInstruction)
+			if !ok {
+				return
+			}
+			o := engine.CalleeObj(call)
+			if o == nil || o.Pkg() == nil || !strings.HasSuffix(o.Pkg().Path(), "spf13/pflag") || !strings.Contains(o.Name(), "Var") {
+				return
+			}
+			args := engine.CallArgs(call)
+			if len(args) < 2 {
+				return
+			}
+			tgt := args[1]
+			if _, isPtr := tgt.Type().Underlying().(*types.Pointer); !isPtr {
+				return // Var/VarP with a pflag.Value wrapper: its pointer fields are checked where they are stored
+			}
+			n++
+			root, _ := engine.FieldPath(tgt)
+			okT := paramRooted(tgt)
+			how := "rooted in the configuration parameter"
+			if al, isAl := root.(*ssa.Alloc); isAl && !okT {
+				okT = addressInstalled(al)
+				how = "local variable whose address is installed in the configuration"
+			}
+			c.Check(okT, fmt.Sprintf("%s>flag-target#%d", p.FuncName(f), n), in.Pos(), 1, []string{"target: " + engine.Describe(tgt)},
+				"flag target is %s", how)
+		})
+	}
+	c.Floor(n, 60)
+}
+
+// checkStrictPlumbing (R10): "strict mode rejects unknown fields at every nesting level" in every file that is loaded.
+// A parameter has the strict role when it is stored into v1.DisallowUnknownFields or passed on in a strict position; a
+// function that has such a parameter must pass exactly that parameter at every strict position it calls (the included
+// files of a client configuration are decoded by a helper two calls away from the switch).
+func checkStrictPlumbing(c *engine.Ctx, rule string) {
+	c.Rule(rule, "strict-mode plumbing: a function that receives the strict flag passes that very parameter to every callee position that (transitively) sets v1.DisallowUnknownFields")
+	p := c.P
+	type pos struct {
+		f *ssa.Function
+		i int
+	}
+	role := map[pos]bool{}
+	var funcs []*ssa.Function
+	for _, f := range p.RepoFuncs() {
+		if f.Pkg != nil && strings.HasSuffix(f.Pkg.Pkg.Path(), "/pkg/config") && f.Parent() == nil {
+			funcs = append(funcs, f)
+		}
+	}
+	isSwitch := func(v ssa.Value) bool {
+		g, ok := v.(*ssa.Global)
+		return ok && g.Name() == "DisallowUnknownFields"
+	}
+	// base: parameter stored into the global switch
+	for _, f := range funcs {
+		engine.ForEachInstr(f, func(in ssa.Instruction) {
+			if st, ok := in.(*ssa.Store); ok && isSwitch(st.Addr) {
+				if pr, ok := st.Val.(*ssa.Parameter); ok {
+					for i, q := range f.Params {
+						if q == pr {
+							role[pos{f, i}] = true
+						}
+					}
+				}
+			}
+		})
+	}
+	if len(role) == 0 {
+		c.Missing("pkg/config/v1.DisallowUnknownFields", "no function stores a parameter into the strict-mode switch")
+		return
+	}
+	// propagate to callers
+	for changed := true; changed; {
+		changed = false
+		for _, f := range funcs {
+			engine.ForEachInstr(f, func(in ssa.Instruction) {
+				call, ok := in.(ssa.CallInstruction)
+				if !ok {
+					return
+				}
+				cf := engine.CalleeFn(call)
+				if cf == nil {
+					return
+				}
+				for i, a := range call.Common().Args {
+					if !role[pos{cf, i}] {
+						continue
+					}
+					if pr, ok := a.(*ssa.Parameter); ok {
+						for j, q := range f.Params {
+							if q == pr && !role[pos{f, j}] {
+								role[pos{f, j}] = true
+								changed = true
+							}
+						}
+					}
+				}
+			})
+		}
+	}
+	n := 0
+	for _, f := range funcs {
+		var own []*ssa.Parameter
+		for i, q := range f.Params {
+			if role[pos{f, i}] {
+				own = append(own, q)
+			}
+		}
+		if len(own) == 0 {
+			continue
+		}
+		f := f
+		engine.ForEachInstr(f, func(in ssa.Instruction) {
+			call, ok := in.(ssa.CallInstruction)
+			if !ok {
+				return
+			}
+			cf := engine.CalleeFn(call)
+			if cf == nil {
+				return
+			}
+			for i, a := range call.Common().Args {
+				if !role[pos{cf, i}] {
+					continue
+				}
+				n++
+				okA := len(own) == 1 && a == ssa.Value(own[0])
+				c.Check(okA, fmt.Sprintf("%s>strict-to-%s", p.FuncName(f), cf.Name()), in.Pos(), 1, []string{"argument: " + engine.Describe(a)},
+					"%s passes its own strict parameter to %s (a different bool would decode that file leniently or strictly regardless of the mode)", p.FuncName(f), cf.Name())
+			}
+		})
+		if len(own) > 1 {
+			c.Violate(p.FuncName(f)+">strict-params", f.Pos(), nil, "%d parameters of %s reach the strict-mode switch", len(own), p.FuncName(f))
+		}
+	}
+	c.Floor(n, 4)
 }
 
 func checkTypeMap(c *engine.Ctx, mapName, constType string, want int) {
